@@ -306,6 +306,39 @@ func Mutants(doc M, seed int64, max int) []Mutant {
 			return true
 		})
 	}
+	// alias graphs among the components of one kind: plain cycles and chains
+	// whose tail leads into a cycle (the tail key sorting before / after it)
+	for _, kind := range []string{"schemas", "parameters", "headers", "requestBodies", "responses", "securitySchemes"} {
+		for _, shape := range []string{"cycle-2", "cycle-3", "tail-first-into-cycle", "tail-last-into-cycle", "tail-into-self-loop"} {
+			kind, shape := kind, shape
+			add("alias-graph-"+shape+"-"+kind, []string{"components", kind}, func(d M) bool {
+				comps, ok := d["components"].(M)
+				if !ok {
+					comps = M{}
+					d["components"] = comps
+				}
+				km, ok := comps[kind].(M)
+				if !ok {
+					km = M{}
+					comps[kind] = km
+				}
+				ref := func(n string) M { return M{"$ref": "#/components/" + kind + "/" + n} }
+				switch shape {
+				case "cycle-2":
+					km["VerifCycA"], km["VerifCycB"] = ref("VerifCycB"), ref("VerifCycA")
+				case "cycle-3":
+					km["VerifCycA"], km["VerifCycB"], km["VerifCycC"] = ref("VerifCycB"), ref("VerifCycC"), ref("VerifCycA")
+				case "tail-first-into-cycle":
+					km["AaaVerifTail"], km["VerifRhoB"], km["VerifRhoC"] = ref("VerifRhoB"), ref("VerifRhoC"), ref("VerifRhoB")
+				case "tail-last-into-cycle":
+					km["ZzzVerifTail"], km["VerifRhoB"], km["VerifRhoC"] = ref("VerifRhoB"), ref("VerifRhoC"), ref("VerifRhoB")
+				case "tail-into-self-loop":
+					km["AaaVerifTail"], km["VerifLoop"] = ref("VerifLoop"), ref("VerifLoop")
+				}
+				return true
+			})
+		}
+	}
 	targeted := len(out)
 	// generic mutations on a seeded sample of nodes
 	perm := rng.Perm(len(nodes))
